@@ -85,6 +85,22 @@ class Hooks:
 
 HOOKS = Hooks()
 
+# The handlers' millisecond clock (StabilizeHandler.current_time_millis -> start_time / end_time of stages and tasks)
+# is owned by the harness: a logical clock that advances by one tick per reading, so that the order of two
+# timestamps is exactly the order in which the engine took them - never a tie, never wall-clock jitter.
+_LOGICAL_MS = [int(__import__("time").time() * 1000)]  # starts at the real time so that it mixes sanely with wall-clock reads
+
+
+def _logical_millis(self=None):
+    _LOGICAL_MS[0] += 1
+    return _LOGICAL_MS[0]
+
+
+def install_logical_clock():
+    from stabilize.handlers.base import StabilizeHandler
+
+    StabilizeHandler.current_time_millis = _logical_millis
+
 
 class VConn(sqlite3.Connection):
     def execute(self, sql, *a):  # type: ignore[override]
@@ -252,6 +268,8 @@ class World:
         self.max_attempts = 10
         self.event_store = None
         self.bus_log = []
+        self.time_rank = False  # put the relative order of stage end times into the state identity (C02's data job)
+        install_logical_clock()
         self.reactor = False  # C13: also subscribe a subscriber that records an event in reaction to stage completions
         self.handler_calls = []
         self.store = self.queue = self.processor = self.registry = None
